@@ -38,6 +38,7 @@ type GenCfg struct {
 	BlockPad  int // extra bytes per block
 	Share     int // permille: reuse an existing block as a child
 	Identity  int // permille: leaf is an identity-hash CID
+	Empty     int // permille: leaf is the empty raw block
 }
 
 // field names include one that is a string prefix of its neighbour ("a"/"ab"):
@@ -104,6 +105,9 @@ func (g *dagGen) leaf() cidlink.Link {
 		data = append(data, byte('a'+i%26))
 	}
 	p := rawProto()
+	if g.cfg.Empty > 0 && g.t.Chance(g.cfg.Empty) {
+		return g.store(p, basicnode.NewBytes([]byte{}), nil)
+	}
 	if g.t.Chance(g.cfg.Identity) {
 		p = identityProto()
 		data = []byte(fmt.Sprintf("id%d", g.n))
